@@ -200,10 +200,12 @@ fn run_case(case: &Value, variation: u64, vbp: &Path, scratch: &Path) -> Vec<Pro
     let pre = c("pre") == "yes";
     // "blocked:<file>": a directory sits where that output file has to be written
     let blocked = c("pre").strip_prefix("blocked:").map(str::to_string);
+    let mut devfull = false;
     if let Some(f) = &blocked {
         // ... or (every other time) the file can be opened but not written: a link to /dev/full
         if r.bool() && Path::new("/dev/full").exists() {
             std::os::unix::fs::symlink("/dev/full", layers.join(f)).unwrap();
+            devfull = true;
         } else {
             fs::create_dir_all(layers.join(f).join("not a file")).unwrap();
         }
@@ -342,6 +344,12 @@ fn run_case(case: &Value, variation: u64, vbp: &Path, scratch: &Path) -> Vec<Pro
             problems.push(Problem { prop: "C06", sig: format!("tolerated input rejected: platform={} store={}", c("platform"), c("store")), detail: format!("context assembly failed on an input the platform may legitimately supply: {}", e.chars().take(200).collect::<String>()) });
         }
     }
+    // a link to /dev/full only blocks a writer that writes through it: one that puts a finished file in its
+    // place (write elsewhere, rename) has written the output, and that is as good as the reported error
+    let replaced = devfull && code == 0 && n_err == 0 && blocked.as_ref().is_some_and(|f| fs::symlink_metadata(layers.join(f)).is_ok_and(|m| m.file_type().is_file() && m.len() > 0));
+    let mut out = out.clone();
+    if replaced { out["exit"] = json!("0"); out["onerror"] = json!("0"); }
+    let out = &out;
     let mut p5 = |d: String| problems.push(Problem { prop: "C05", sig: path_sig.clone(), detail: d });
     match out["exit"].as_str().unwrap() {
         "0" => if code != 0 { p5(format!("exit status {code}, specification says 0; stderr: {stderr}")) },
